@@ -29,8 +29,13 @@ func (n *pnode) String() string {
 	var b strings.Builder
 	b.WriteString(n.op)
 	switch n.op {
-	case "src", "slice", "chan":
+	case "src", "slice":
 		fmt.Fprintf(&b, "%v", n.items)
+	case "chan":
+		fmt.Fprintf(&b, "%v", n.items)
+		if n.m == 1 {
+			b.WriteString("[fed live]")
+		}
 	case "ictx":
 		fmt.Fprintf(&b, "%v[cancels the call's context at %d]", n.items, n.m)
 	case "counter", "first", "chunk", "chunkflat", "flatmap":
@@ -144,6 +149,7 @@ type pgen struct {
 	r       *R
 	nsrc    int
 	maxSrc  int
+	nchan   int
 	allowGo bool // goroutine-backed nodes allowed (only at the root for batch/merge)
 }
 
@@ -206,7 +212,9 @@ func (g *pgen) leaf() *pnode {
 				it := g.items()
 				return &pnode{op: "ictx", items: it, m: r.Choose(len(it)+1, "ictx-at")}
 			}
-			return &pnode{op: "chan", items: g.items()}
+			c := &pnode{op: "chan", items: g.items(), m: r.Choose(2, "chan-live"), id: g.nchan}
+			g.nchan++
+			return c
 		}
 		if g.nsrc >= g.maxSrc {
 			return &pnode{op: "slice", items: g.items()}
